@@ -133,6 +133,12 @@ func c15(r *core.Run) {
 	}
 	r.Floor("R2.nosaturating", 24)
 
+	// R6 the signed and unsigned 128-bit fixed-point implementations agree wherever sign handling is not involved
+	siblingRule(r, "R6.siblings", []*core.Family{famF}, func(g string) bool {
+		return strings.HasPrefix(g, "interpreter.") || strings.HasPrefix(g, "fixedpoint.") || strings.HasPrefix(g, "..")
+	})
+	r.Floor("R6.siblings", 50)
+
 	// R3 rounding arguments
 	for _, t := range []string{"Fix128Value", "UFix128Value"} {
 		for _, m := range []string{"Mul", "Div", "SaturatingMul", "SaturatingDiv", "MultiplyDivide"} {
